@@ -1500,6 +1500,11 @@ def counted_loops(pr):
         if callee(t) != "core::iter::traits::iterator::Iterator::next":
             continue
         ga = ty_str(t["f"]["a"][0])
+        if ga.startswith(_SLICE_ITERS):
+            lp = _slice_counted_loop(pr, bb, t, ga)
+            if lp:
+                out.append(lp)
+            continue
         if not ga.startswith(("core::ops::range::Range<", "core::iter::adapters::rev::Rev<core::ops::range::Range<")):
             continue
         reversed_ = ga.startswith("core::iter::adapters::rev::Rev<")
@@ -1544,6 +1549,80 @@ def counted_loops(pr):
         out.append(dict(next_bb=bb, sw_bb=t["to"], some=some_t, none=none_t, lo=rng[2][0], hi=rng[2][1], idx=idx,
                         dest=t["dest"]["l"], reversed=reversed_))
     return out
+
+
+_SLICE_ITERS = ("core::slice::iter::Iter<", "core::slice::iter::IterMut<", "core::iter::adapters::rev::Rev<core::slice::iter::Iter<",
+                "core::iter::adapters::rev::Rev<core::slice::iter::IterMut<")
+_SLICE_ITER_MAKERS = ("core::slice::<impl [T]>::iter", "core::slice::<impl [T]>::iter_mut")
+
+
+def exact_len(pr, e, depth=0):
+    """The expression H when the slice denoted by e has exactly H elements by construction: the first half of
+    `split_at(_, H)`, `x[..H]`, `x[0..H]` (each of them panics rather than yield a shorter slice)."""
+    e = strip_ref(e)
+    if e[0] == "proj" and tuple(e[2]) == ("0",) and e[1][0] == "call" and \
+            e[1][1] in ("core::slice::<impl [T]>::split_at", "core::slice::<impl [T]>::split_at_mut") and len(e[1][2]) == 2:
+        return e[1][2][1]
+    if e[0] == "call" and e[1] in INDEX and len(e[2]) == 2:
+        r = strip_ref(e[2][1])
+        if r[0] == "agg" and r[1].endswith("RangeTo::RangeTo") and r[2]:
+            return r[2][0]
+        if r[0] == "agg" and r[1].endswith("Range::Range") and len(r[2]) == 2 and r[2][0] == ("const", 0):
+            return r[2][1]
+    if e[0] == "var" and depth < 4:
+        ds = pr.tr.defs.get(e[2], [])
+        if len(ds) == 1 and ds[0][2] == "assign" and e[2] not in pr.vx.mw:
+            return exact_len(pr, pr.vx.rvalue(ds[0][3]["rv"], ds[0][0]), depth + 1)
+    return None
+
+
+def _slice_counted_loop(pr, bb, t, ga):
+    """`for x in s.iter()` (also iter_mut / .rev(), and what fold / for_each are lowered to) over a slice with
+    exactly H elements by construction (exact_len) is a loop of exactly H trips: reported like `for _ in 0..H`
+    (without an index value)."""
+    b, vx = pr.b, pr.vx
+    it = strip_ref(vx.operand(t["args"][0], bb))
+    if it[0] != "var" or t["to"] is None:
+        return None
+    ds = pr.tr.defs.get(it[2], [])
+    if len(ds) != 1:
+        return None
+    d = ds[0]
+    if d[2] == "call":
+        src = ("call", callee(d[3]), tuple(vx.operand(a, d[0]) for a in d[3]["args"]))
+    elif d[2] == "assign":
+        src = vx.rvalue(d[3]["rv"], d[0])
+    else:
+        return None
+    for _ in range(3):      # into_iter(iter(s)) / rev(iter(s))
+        if src[0] == "call" and src[2] and (src[1].endswith("IntoIterator::into_iter") or src[1] == "core::iter::traits::iterator::Iterator::rev") \
+                and strip_ref(src[2][0])[0] == "call":
+            src = strip_ref(src[2][0])
+    if not (src[0] == "call" and src[2] and (src[1] in _SLICE_ITER_MAKERS or src[1].endswith("IntoIterator::into_iter"))):
+        return None
+    h = exact_len(pr, src[2][0])
+    if h is None:
+        return None
+    if [w for w in vx.mw.get(it[2], []) if callee(w[1]) != "core::iter::traits::iterator::Iterator::next"]:
+        return None
+    if len([1 for bb2, t2 in b.calls() if callee(t2) == "core::iter::traits::iterator::Iterator::next" and
+            strip_ref(vx.operand(t2["args"][0], bb2)) == it]) != 1:
+        return None         # a second `next()` on the same iterator: the trips are not H
+    nt = b.blocks[t["to"]]["term"]
+    if nt["t"] != "switch":
+        return None
+    some_t = none_t = None
+    for v, tb in nt["targets"]:
+        if v == 1:
+            some_t = tb
+        if v == 0:
+            none_t = tb
+    if some_t is None:
+        return None
+    if none_t is None:
+        none_t = nt["else"]
+    return dict(next_bb=bb, sw_bb=t["to"], some=some_t, none=none_t, lo=("const", 0), hi=h, idx=None, dest=t["dest"]["l"],
+                reversed=ga.startswith("core::iter::adapters::rev::Rev<"), slice=True)
 
 
 def install_loop_lemmas(pr, crates):
@@ -1644,6 +1723,8 @@ def install_loop_lemmas(pr, crates):
 
 def _is_loop_index(pr, ix, lp):
     """ix denotes the value produced by this loop's `next()` in the current iteration."""
+    if lp.get("slice"):
+        return False        # a slice loop yields elements, not positions
     if ix[0] == "proj" and ix[1][0] == "call" and ix[1][1].endswith("Iterator::next") and ix[1][3] == lp["next_bb"] \
             and tuple(ix[2]) == ("@Some", "0"):
         return True
